@@ -304,7 +304,7 @@ def run(tier, V):
             moved += 1
     c0 = make_case(base)
     cov = {'evaluations': n, 'distinct_nontrivial': moved,
-           'rule': ('%d cases: buffers of 1-8 lines (ASCII, Latin-1, Greek, CJK words, punctuation), every kind of start position, sequences of 1-5 searches from / ? n N ^A with counts and (15%%) line offsets after the closing delimiter, patterns from the C10 generator '
+           'rule': ('%d cases: buffers of 1-8 lines (ASCII, Latin-1, Greek, CJK words, punctuation), every kind of start position, sequences of 1-5 searches from / ? n N ^A with counts and (15%%) line offsets after the closing delimiter, ignore-case switched and prompts given up between them, patterns from the C10 generator '
                     '(anchored, word-boundary, empty-matching, groups, classes), ignorecase on/off; cursor observed through a marker inserted after the sequence.  non-trivial = the reference moved the cursor at least once.' % n),
            'samples': [{'lines': c0['lines'], 'cursor': (c0['row'], c0['off']), 'steps': [(c, k, mr.render(a) if a else None, so) for c, k, a, so in c0['steps']]}]}
     assumptions = ['whole-line semantics: anchors and word boundaries see their real neighbours; the line terminator is not part of the text',
